@@ -47,12 +47,12 @@ def steps_trace(res, recs, n):
 def run(tier, seed):
     res = vlib.Result(PROP, tier, seed, "model_checking")
     vlib.build_harness()
-    cfgs = ["MC_C03_len2", "MC_C03_three"] if tier == "quick" else ["MC_C03_len2", "MC_C03_three", "MC_C03_len3"]
+    cfgs = ["MC_C03_len2", "MC_C03_three"] if tier == "quick" else ["MC_C03_len2", "MC_C03_three", "MC_C03_long5", "MC_C03_len3"]
     behaviours = []
     nontrivial = set()
     for cfg in cfgs:
         r = vlib.tlc_must_pass(vlib.tlc("MC_C03", cfg, workers=8 if tier == "quick" else 14, timeout=3400, xmx="12g"))
-        vlib.require_coverage(r, (["InstFail"] if cfg != "MC_C03_three" else []) + ["DispatchNext", "StepSkip", "StepLeaf", "StepEnter", "Return"])
+        vlib.require_coverage(r, (["InstFail"] if cfg not in ("MC_C03_three", "MC_C03_long5") else []) + ["DispatchNext", "StepSkip", "StepLeaf", "StepEnter", "Return"])
         res.add_tlc(r)
         recs = r["records"].get("REPLAY", [])
         if cfg == "MC_C03_len2":
